@@ -41,6 +41,8 @@ struct Scenario {
   std::function<std::string()> outcome;
   // property tags for an access to a freed block (default "C12,C17"); "OBS" = observation only
   std::function<const char *(const void *, const BlockInfo &)> uaf_props;
+  // property tags of a deadlock / step-horizon violation (default "C02")
+  const char *deadlock_props = "C02";
   // make every allocation / deallocation of a virtual thread a scheduling point (gives interleavings
   // inside code that touches plain shared data between its atomic steps)
   bool alloc_points = false;
